@@ -31,7 +31,7 @@ META = {
         'every changed pixel is compared with the reference region; complete filling is demanded exactly when the region held no '
         'fill-coloured pixel. 12 adapter/mode pairs (1, 2 and 4 bits per pixel); a seed-independent set of trap shapes runs in every shard.'),
     'level_note': (
-        'Only solid PAINT is covered (tiled PAINT and WINDOW are not pinned). Colour NUMBERS beyond the highest attribute are used for fill and '
+        'Solid fills are reached through the PAINT statement (absolute, STEP relative to the observed POINT(0)/POINT(1), logical coordinates under WINDOW / WINDOW SCREEN) and through DRAW "BMx,y Pf,b", under VIEW / VIEW SCREEN / no VIEW; under WINDOW the physical start point of the reference is what PMAP returns for the logical coordinates given. Tiled PAINT is not pinned. Colour NUMBERS beyond the highest attribute are used for fill and '
         'border, with the walls drawn with the same number; which attribute a number denotes is OBSERVED (PSET with that number on a scratch '
         'pixel, read from the page buffer), never modelled. Omitted border = the paint attribute, and omitted paint = the attribute PSET '
         'without colour stores, are taken from the GW-BASIC manual. Negative numbers denote no attribute: executed and counted, nothing '
@@ -43,7 +43,7 @@ META = {
              'border pixel / outside the viewport'),
     'design_ref': 'DESIGN.md section 4 C32',
     'assumptions': ['planting statements (LINE, PSET, CIRCLE, PUT) only prepare the picture; the snapshot before PAINT is the ground truth'],
-    'require_counters': {'any': ['paints_out_of_range_border', 'paints_out_of_range_fill', 'paints_border_omitted', 'paints_fill_and_border_omitted', 'paints', 'paints_changed_pixels', 'complete_fill_demanded', 'region_touches_viewport_edge',
+    'require_counters': {'any': ['paints_through_draw', 'paints_through_draw_under_window', 'paints_logical_seed', 'paints_step_seed', 'window_on', 'window_screen', 'paints_out_of_range_border', 'paints_out_of_range_fill', 'paints_border_omitted', 'paints_fill_and_border_omitted', 'paints', 'paints_changed_pixels', 'complete_fill_demanded', 'region_touches_viewport_edge',
                                  'seed_on_border', 'seed_outside_viewport', 'view_on', 'view_off', 'region_had_fill_pixels',
                                  'shape_maze', 'shape_spiral', 'shape_diagonals', 'shape_serpentine']},
     'timeout': {'quick': 900, 'thorough': 3600},
@@ -357,10 +357,37 @@ class Painter(object):
             return bg
         return rng.choice([c for c in range(n) if c not in (b, bg)] or [b])
 
-    def bitmap(self, rng, shapes=None, geometry=None, paints=3, seeds=None, fills=None, colours=None, high=False):
+    WINDOWS = [(-1, -1, 1, 1), (0, 0, 100, 100), (-160, -100, 160, 100), (10, 20, 500, 300), (0, 0, 319, 199), (-3.5, 2.25, 40, 9)]
+
+    def logical_seed(self, win, wscreen, rect_local, px, py):
+        """
+        WINDOW maps its rectangle linearly onto the viewport (y upward unless WINDOW SCREEN): logical coordinates
+        aimed at the physical viewport-relative point (px, py).  What physical point they really denote is then
+        read back with PMAP (the documented mapping function) and THAT is the start point of the reference fill.
+        """
+        fx0, fy0, fx1, fy1 = win
+        vw, vh = rect_local
+        lx = fx0 + px * (fx1 - fx0) / float(max(1, vw - 1))
+        t = py / float(max(1, vh - 1))
+        ly = fy0 + t * (fy1 - fy0) if wscreen else fy1 - t * (fy1 - fy0)
+        tx, ty = ('%.6g' % lx).encode(), ('%.6g' % ly).encode()
+        try:
+            qx, qy = self.g.box.ev(b'PMAP(' + tx + b',0)'), self.g.box.ev(b'PMAP(' + ty + b',1)')
+        except harness.Internal as e:
+            self.res.violation(e.key, 'PMAP: %s' % e, {'mode': self.g.mode['label']})
+            raise
+        if qx is None or qy is None:
+            return None
+        return tx, ty, int(qx), int(qy)
+
+    def bitmap(self, rng, shapes=None, geometry=None, paints=3, seeds=None, fills=None, colours=None, high=False,
+               window='random', entries=None):
         g, res = self.g, self.res
         w, h = g.w, g.h
-        g.direct(b'VIEW:CLEAR')       # no viewport, no variables (the sprite array is dimensioned when needed)
+        g.direct(b'VIEW:WINDOW:CLEAR')   # no viewport, no window, no variables (the sprite array is dimensioned when needed)
+        if not self._attr_of:
+            for nr in [None] + list(range(g.nattr)) + self.ALIASES:
+                self.attr_of(nr)         # observe every colour number once, before any VIEW / WINDOW is set
         b, bg, others = colours or self.colours(rng)
         # how the PAINT statements of this bitmap spell their arguments
         form = 'explicit'
@@ -468,6 +495,22 @@ class Painter(object):
             ox, oy = 0, 0
             rect = (0, 0, w - 1, h - 1)
             res.count('view_off')
+        # logical coordinates
+        if window == 'random':
+            window = None
+            if rng.random() < 0.4:
+                window = (rng.choice(self.WINDOWS), rng.random() < 0.4)
+        if window is not None:
+            win, wscreen = window
+            code = g.direct(b'WINDOW' + (b' SCREEN' if wscreen else b'') + b'(%g,%g)-(%g,%g)' % win)
+            if code:
+                window = None
+                g.direct(b'WINDOW')
+            else:
+                res.count('window_on')
+                if wscreen:
+                    res.count('window_screen')
+        vw_local = (rect[2] - rect[0] + 1, rect[3] - rect[1] + 1)
         self.nb += 1
         res.count('bitmaps')
         for k in range(paints):
@@ -479,37 +522,83 @@ class Painter(object):
                 kind, (sx, sy) = self.pick_seed(rng, before, V, rect, b, view)
             f = fills[k % len(fills)] if fills else self.pick_fill(rng, b, bg)
             judgeable = True
-            if form == 'explicit':
+            # entry point and spelling of the start point
+            if entries is not None:
+                entry = entries[k % len(entries)]
+            elif form != 'explicit':
+                entry = 'paint'
+            else:
+                r = rng.random()
+                entry = 'paint' if r < 0.55 else 'draw' if r < 0.85 else 'step'
+            if entry == 'step' and window is not None:
+                entry = 'paint'
+            if entry == 'draw' and (sx - ox < 0 or abs(sx - ox) > 9999 or abs(sy - oy) > 9999):
+                entry = 'paint'       # an absolute M cannot start with a sign
+            ptxt = b'(%d,%d)' % (sx - ox, sy - oy)
+            if entry == 'paint' and window is not None:
+                ls = self.logical_seed(win, wscreen, vw_local, sx - rect[0], sy - rect[1])
+                if ls is None:
+                    continue
+                ptxt = b'(' + ls[0] + b',' + ls[1] + b')'
+                q = (ls[2] + ox, ls[3] + oy)
+                if q != (sx, sy):
+                    res.count('window_seed_moved_by_rounding')
+                sx, sy = q
+                res.count('paints_logical_seed')
+            elif entry == 'step':
+                try:
+                    lp = (g.box.ev(b'POINT(0)'), g.box.ev(b'POINT(1)'))
+                except harness.Internal as e:
+                    res.violation(e.key, 'POINT(0)/POINT(1): %s' % e, {'mode': g.mode['label']})
+                    raise
+                ptxt = b' STEP(%d,%d)' % (sx - ox - int(lp[0]), sy - oy - int(lp[1]))
+                res.count('paints_step_seed')
+            if entry == 'draw':
+                fnum = self.spell(rng, f, high)
+                stmt = b'DRAW "BM%d,%d P%d,%d"' % (sx - ox, sy - oy, fnum, bnum)
+                res.count('paints_through_draw')
+                if window is not None:
+                    res.count('paints_through_draw_under_window')
+            elif form == 'explicit':
                 fnum = self.spell(rng, f, high)
                 if colours is None and rng.random() < 0.02:
                     # a negative number: no attribute is denoted, nothing is demanded (counted only)
                     judgeable = False
                     res.count('paints_negative_number')
-                    stmt = b'PAINT(%d,%d),%d,%d' % ((sx - ox, sy - oy, -1, bnum) if rng.random() < 0.5 else (sx - ox, sy - oy, fnum, -1))
+                    stmt = b'PAINT' + ptxt + (b',-1,%d' % bnum if rng.random() < 0.5 else b',%d,-1' % fnum)
                 else:
-                    stmt = b'PAINT(%d,%d),%d,%d' % (sx - ox, sy - oy, fnum, bnum)
+                    stmt = b'PAINT' + ptxt + b',%d,%d' % (fnum, bnum)
                     if bnum >= g.nattr:
                         res.count('paints_out_of_range_border')
                     if fnum >= g.nattr:
                         res.count('paints_out_of_range_fill')
             elif form == 'border-omitted':
                 f = b
-                stmt = b'PAINT(%d,%d),%d' % (sx - ox, sy - oy, bnum)
+                stmt = b'PAINT' + ptxt + b',%d' % bnum
                 res.count('paints_border_omitted')
             else:
                 f = b
-                stmt = b'PAINT(%d,%d)' % (sx - ox, sy - oy)
+                stmt = b'PAINT' + ptxt
                 res.count('paints_fill_and_border_omitted')
             case = {'mode': g.mode['label'], 'view': view, 'viewport': list(V), 'shapes': [s if isinstance(s, str) else 'directed' for s in shapes],
-                    'seed_abs': [sx, sy], 'stmt': stmt, 'bitmap_no': self.nb, 'border': b, 'fill': f}
+                    'seed_abs': [sx, sy], 'stmt': stmt, 'bitmap_no': self.nb, 'border': b, 'fill': f, 'entry': entry,
+                    'window': list(window[0]) + [window[1]] if window is not None else None}
             try:
-                code = g.trap(stmt)
+                if entry == 'step':
+                    # storing a program line resets the last referenced point, so the STEP form runs in direct
+                    # mode; should it raise an error its message spoils the picture and the bitmap is given up
+                    code = g.direct(stmt)
+                    if code:
+                        res.count('step_paint_error_discarded')
+                        return
+                else:
+                    code = g.trap(stmt)
             except harness.Internal as e:
                 res.violation(e.key, '%s: %s: %s' % (g.mode['label'], stmt.decode(), e), case)
                 raise
             if code == -2:
                 res.count('paint_budget_breaks')
-                g.direct(b'VIEW')
+                g.direct(b'VIEW:WINDOW')
                 g.enter_mode()
                 return
             if code < 0:
@@ -731,11 +820,17 @@ def directed(pt):
             fills = [f, f, (f + 1) % n if n > 2 else f, f, b, f, f]
             if (gi + len(name)) % 2:
                 seeds = seeds[3:] + seeds[:3]
-            pt.bitmap(rng, shapes=[fn], geometry=geom, paints=len(seeds), seeds=seeds, fills=fills, colours=(b, bg, [c for c in range(n) if c != b]))
+            pt.bitmap(rng, shapes=[fn], geometry=geom, paints=len(seeds), seeds=seeds, fills=fills, colours=(b, bg, [c for c in range(n) if c != b]),
+                      window=None, entries=['paint', 'paint', 'draw', 'step'])
             if gi < 2 and name in ('empty', 'diag-split', 'comb', 'serpentine-h1', 'islands'):
                 # the same picture with border (walls AND PAINT) and fill spelled as out-of-range numbers
                 pt.bitmap(rng, shapes=[fn], geometry=geom, paints=len(seeds), seeds=seeds, fills=fills,
-                          colours=(b, bg, [c for c in range(n) if c != b]), high=True)
+                          colours=(b, bg, [c for c in range(n) if c != b]), high=True, window=None)
+            if gi < 3 and name in ('empty', 'diag-split', 'comb', 'serpentine-v1', 'spiral-1px', 'islands'):
+                # the same picture under WINDOW / WINDOW SCREEN, through PAINT (logical seed) and through DRAW "P f,b"
+                wn = [((-1, -1, 1, 1), False), ((0, 0, 100, 100), True), ((10, 20, 500, 300), False)][(gi + len(name)) % 3]
+                pt.bitmap(rng, shapes=[fn], geometry=geom, paints=len(seeds), seeds=seeds, fills=fills,
+                          colours=(b, bg, [c for c in range(n) if c != b]), window=wn, entries=['paint', 'draw'])
 
 
 def run_shard(spec, res):
